@@ -25,7 +25,7 @@ def wf_at(root):
 
 ROWS_EQ = ("rows(self.X_orig) == rows(self.X) and rows(self.Y) == rows(self.X) and rows(self.Y_orig) == rows(self.X) and rows(self.X_flag) == rows(self.X) "
            "and rows(self.n_evals) == rows(self.X) and rows(self.fun_eval_time) == rows(self.X) and implies(truthy(self.noise_flag), rows(self.S) == rows(self.X))")
-WF = (ROWS_EQ + " and self.Xn >= -1 and self.Xn < rows(self.X) and self.X_max_idx == self.Xn and self.D >= 1 "
+WF = (ROWS_EQ + " and self.func_count >= 0 and self.Xn >= -1 and self.Xn < rows(self.X) and self.X_max_idx == self.Xn and self.D >= 1 "
       "and forall(rows(self.X), lambda i: self.X_flag[i] == (i <= self.Xn)) and count_true(self.X_flag) == self.Xn + 1")
 
 
@@ -75,6 +75,7 @@ def _(c):
     c.ens("norecord_keeps_log", "implies(not truthy(record_duplicate_data), self.Xn == old(self.Xn) and same(self.X, old(self.X)) and same(self.X_orig, old(self.X_orig)) "
           "and same(self.Y, old(self.Y)) and same(self.Y_orig, old(self.Y_orig)) and forall(self.Xn + 1, lambda i: pteq(row(self.X, i), row(old(self.X), i)) "
           "and pteq(row(self.X_orig, i), row(old(self.X_orig), i))))", top=True, props=["C04", "C12", "C19", "C05"])
+    c.ens("recorded_means_nonempty", "implies(truthy(record_duplicate_data), self.Xn >= 0)")
     c.ens("he_flag_kept", "truthy(self.he_noise_flag) == truthy(old(self.he_noise_flag))")
     # ---- exceptional exits (C10): the target's own exception, or ValueError for an invalid value -----------------------
     XENS = {"not_counted": "self.func_count == old(self.func_count)", "calls": "ghost.n_calls >= old(ghost.n_calls) and ghost.n_calls <= old(ghost.n_calls) + 1",
@@ -100,6 +101,10 @@ def _(c):
     c.typ("fsd", sort="real")   # may be None
     c.bools("record_duplicate_data")
     c.req("wf", WF)
+    c.assume_("nan_tail", "forall(rows(self.X), lambda i: implies(i > self.Xn, exists(self.D, lambda j: self.X[i][j] != x[j])))",
+              "unused log rows are NaN (np.full(..., nan) at construction and growth) and never compare equal to a point; NaN is not modelled for X "
+              "(real-valued rows), so this is assumed; bounded-checked by replay/logger_model.py")
+    c.ens("recorded_means_nonempty", "implies(truthy(record_duplicate_data), self.Xn >= 0)")
     c.mod(*REC_FIELDS)
     c.result = {"tuple": [{"sort": "real"}, {"sort": "int", "maybe_none": True}]}
     c.ens("wf", WF)
